@@ -1,6 +1,6 @@
 PLAN['C05'] = dict(
     level='exploration',
-    units=std_units('C05', [('asan', 'sdcz', 3600, 200000), ('asan-vb', 'sdcz', 1200, 50000), ('asan-i64', 'sdcz', 900, 30000)], chunk=100),
+    units=std_units('C05', [('asan', 'sdcz', 10800, 200000), ('asan-vb', 'sdcz', 3600, 50000), ('asan-i64', 'sdcz', 2700, 30000)], chunk=100),
     rule='generated nonsingular-by-pattern systems with row/column/two-sided bad scaling x Trans x Equil x IterRefine x NC/NR x ColPerm x u x tuning x malloc/workspace; after ?gssvx: A_after = diag(R) A diag(C) per equed (bitwise up to association), '
          'B_after per the documented table (bitwise), index arrays, padding, residual of the returned X in the scaled system against the factor-derived bound (refined X only when n*eps*cond*sigma < 1e-2 (sigma = max/min of |op(A)||x|+|b|, the Skeel condition for working-precision refinement)); non-trivial = residual judged and n >= 2',
     counter_names=['sum residual/bound per-mille', 'max residual/bound per-mille', 'residual verdicts skipped by the conditioning rule'],
